@@ -1,8 +1,9 @@
 """C19 — loading and serialising are deterministic across runs and hash seeds.
 
-The controlled source of nondeterminism is the interpreter's string-hash salt.  K
-fresh interpreters with distinct PYTHONHASHSEED values (derived from VERIF_SEED) and
-one interpreter repeating the first seed receive the same worlds; see DESIGN.md §4.4."""
+The controlled source of nondeterminism is the interpreter configuration.  K fresh
+interpreters with distinct PYTHONHASHSEED values (derived from VERIF_SEED), one that
+repeats the first seed as a second run on the same directories, and one that repeats it
+with PYTHONOPTIMIZE=1 receive the same worlds; see DESIGN.md §4.4 and §10.4."""
 import json
 import os
 import random
@@ -301,7 +302,7 @@ def compare(worlds, results, hseeds):
         # an interpreter running with assertions stripped is compared only on scripts
         # that are valid for the reference interpreter (assert-based input validation is
         # legitimate; it can only differ on invalid scripts)
-        if not isinstance(first.get("load"), str):
+        if not isinstance(first.get("load"), str) or (first.get("dumps") or ["exc"])[0] != "text":
             lines = {i: l for i, l in lines.items() if not _cfg(hseeds[i]).get("optimize")}
         for i, r in rs.items():
             if r.get("pair_bad"):
